@@ -143,6 +143,22 @@ def run_history(ctx, case):
         del _EARLIER[:-4]
 
 
+SELF_CONTAINED_PAIRS = [
+    ("CREATE TABLE arch_{n} LIKE orders;\n", "CREATE TABLE stg_{n} LIKE orders;\nALTER TABLE stg_{n} ADD loaded_at timestamp;\n"),
+    ("CREATE TABLE arch_{n} (LIKE s.orders);\nCREATE TABLE keep_{n} (a int, b int);\n", "CREATE TABLE stg_{n} (LIKE s.orders);\nALTER TABLE stg_{n} ADD n1 int;\nCREATE INDEX ix_{n} ON stg_{n} (n1);\n"),
+    ("CREATE TABLE c_{n} CLONE src;\n", "CREATE TABLE d_{n} CLONE src;\nALTER TABLE d_{n} ADD z int;\n"),
+    ("CREATE TABLE t_{n} (a int, b int);\n", "CREATE TABLE t_{n} (a int, b int);\nALTER TABLE t_{n} {alter};\n"),
+    ("CREATE TABLE s.t_{n} (a int PRIMARY KEY, b int);\nCREATE INDEX i_{n} ON s.t_{n} (b);\n", "CREATE TABLE s.t_{n} (a int PRIMARY KEY, b int);\nALTER TABLE s.t_{n} {alter};\nCREATE UNIQUE INDEX j_{n} ON s.t_{n} (a DESC);\n"),
+    ("CREATE TABLE t_{n} (a int, b int);\nALTER TABLE t_{n} ADD c int;\n", "CREATE TABLE u_{n} (a int, b int);\nALTER TABLE u_{n} {alter};\nALTER TABLE u_{n} ADD c int;\n"),
+    ("CREATE TYPE ty_{n} AS ENUM ('a', 'b');\nCREATE DOMAIN d_{n} AS varchar(10);\n", "CREATE TYPE ty_{n} AS ENUM ('x', 'y', 'z');\nCREATE DOMAIN d_{n} AS ENUM ('q', 'r');\nCREATE DOMAIN e_{n} AS char(3);\n"),
+    ("CREATE DOMAIN d_{n} AS ENUM ('a', 'b');\nCREATE DOMAIN c_{n} AS CHAR(2);\n", "CREATE DOMAIN d2_{n} AS ENUM ('x');\nCREATE DOMAIN c2_{n} AS VARCHAR(5);\n"),
+    ("CREATE EXTERNAL TABLE h_{n} (a string)\nROW FORMAT SERDE 'org.apache.hadoop.hive.serde2.RegexSerDe'\nWITH SERDEPROPERTIES (\n  \"input.regex\" = \"([0-9]+);(.*)\"\n)\nSTORED AS TEXTFILE;\n",
+     "CREATE EXTERNAL TABLE h_{n} (a string)\nROW FORMAT SERDE 'org.apache.hadoop.hive.serde2.RegexSerDe'\nWITH SERDEPROPERTIES (\n  \"input.regex\" = \"(x+)(y+)\"\n)\nSTORED AS TEXTFILE;\n"),
+    ("CREATE SEQUENCE q_{n} START WITH 5 INCREMENT BY 2;\n", "CREATE SEQUENCE q_{n} START WITH 7 INCREMENT BY 3 CACHE 10;\nCREATE TABLE cache (id int);\nCREATE INDEX i ON cache (id);\n"),
+    ("CREATE TABLE p_{n} (a int, b int) PARTITIONED BY (dt string);\n", "CREATE TABLE p2_{n} (a int) PARTITIONED BY (dt string, hr int);\nALTER TABLE p2_{n} ADD c int;\n"),
+]
+
+
 def cross_script_case(ctx, case):
     """two *different* scripts in one process: A defines table T, B only alters / indexes T.  B's outcome (it raises: T is not defined in
     B) must be the same before and after A was parsed - by the same or by another parser object - and A's returned result must not be
@@ -350,6 +366,17 @@ def run_shard(ctx):
                         "CREATE TABLE unrelated (q int);\nALTER TABLE %s%s DROP COLUMN b;\n"]) % (sch, tn)
         args = {k: v for k, v in gen_args(rng).items() if k in ("output_mode", "group_by_type")}
         check_case(ctx, {"gen": "cross_script", "a": a, "b": b, "args": args})
+    # (2b') the same, with a B that is complete in itself and builds on the same kind of object as A (a table without columns that is
+    #       then altered, the same table text plus ALTERs, an ENUM type / domain, a serde regex, a sequence): what B adds may not show
+    #       up in what A returned, nor in a later run of A
+    for j in range(ctx.budget(160, 3000)):
+        n = "%d_%d_%d" % (ctx.seed, ctx.shard, j)
+        a, b = rng.choice(SELF_CONTAINED_PAIRS)
+        alt = rng.choice(["ADD loaded_at timestamp", "ADD n1 int DEFAULT 5", "ADD CONSTRAINT fk_x FOREIGN KEY (a) REFERENCES p (k)", "ADD CONSTRAINT uq_x UNIQUE (a)", "DROP COLUMN b",
+                          "RENAME COLUMN a TO a2", "ADD CONSTRAINT ck_x CHECK (a > 3)", "ADD PRIMARY KEY (a)"])
+        args = {k: v for k, v in gen_args(rng).items() if k in ("output_mode", "group_by_type")}
+        check_case(ctx, {"gen": "cross_script", "a": a.replace("{n}", n), "b": b.replace("{n}", n).replace("{alter}", alt), "args": args})
+        ctx.obs["cross_script_self_contained_pairs"] += 1
     # (2c) the command line entry point with --no-dump, for one file and for a directory
     for j in range(ctx.budget(24, 400)):
         files = {n: gen_script(rng) for n in rng.sample(["a.sql", "b.ddl", "c.hql", "notes.txt", "d.bql"], rng.randint(1, 3))}
